@@ -217,6 +217,7 @@ def run_property(pid, tier, seed, jobs=None):
         elif o["status"] == ERROR:
             err.append(o)
     n_ok = sum(1 for o in obs if o["status"] == OK)
+    n_known = sum(1 for o in obs if o["status"] == "known-finding")
     # floors: instance counts that must be met, else the rule may pass vacuously
     floor_fail = []
     for name, (found_key, minimum) in getattr(mod, "FLOORS", {}).items():
@@ -240,8 +241,11 @@ def run_property(pid, tier, seed, jobs=None):
     if level == "proof" and not all_discharged:
         level = "other"
     cov = dict(
-        obligations=len(obs),
+        # obligations refuted by a defect that is listed in known_findings.txt are decided the other way: they are
+        # reported (KNOWN-FINDING line, refuted_listed) and are not part of the proof count
+        obligations=len(obs) - n_known,
         discharged=n_ok,
+        refuted_listed=n_known,
         undecided=len(und),
         violations=len(viol),
         known_findings=len(knownhits),
@@ -252,7 +256,10 @@ def run_property(pid, tier, seed, jobs=None):
         samples=samples,
         checker_cmd="python3-vt -m fverif check %s --tier %s" % (pid, tier),
         trusted_base=spec.get("trusted_base", []),
-        explanation=spec.get("explanation", ""),
+        explanation=spec.get("explanation", "") + (
+            " | %d obligation(s) of this run are REFUTED by a recorded defect (known_findings.txt; printed as KNOWN-FINDING):"
+            " they are excluded from obligations/discharged and counted in refuted_listed; the property does not hold for"
+            " those constructs." % n_known if n_known else ""),
         exhaustive=bool(spec.get("exhaustive", False)),
         tasks=len(tasks),
         source_digest=digest,
